@@ -29,6 +29,7 @@ def run(chk):
     chk.section('split_rows', split_rows, mod)
     chk.section('pix_metadata', pix_metadata, mod)
     chk.section('experiment', experiment, mod)
+    chk.section('add_pixel_data', add_pixel_data, mod)
     chk.section('unique_refs', unique_refs, mod)
     chk.section('ir_roundtrip_units', ir_roundtrip_units)
     bounded_files(chk)
@@ -226,6 +227,48 @@ def experiment(chk, mod):
         dd = md.SqwMultiIXExperiment([E(i) for i in range(n)])._serialize_to_dict()
         oa = dd['array_dat']
         chk.decided(f'io.sqw._models:SqwMultiIXExperiment/one-record-per-run-in-order[{n}]', oa.shape == (n,) and list(oa.data) == [('record', i) for i in range(n)])
+
+
+def add_pixel_data(chk, mod):
+    """SqwBuilder.add_pixel_data against the contracts of its callees (stubs): the experiment block holds the supplied experiments,
+    all of them, in the supplied order -- the pixel row `irun` is a position in that block --, whatever their run ids; nfiles is their
+    number; the pixel wrapper is _split_pix_rows(data, rows, row_units) and the pixel metadata is made from that wrapper."""
+    chk.function(MOD, 'SqwBuilder.add_pixel_data')
+    pre = f'{MOD}:SqwBuilder.add_pixel_data'
+
+    class E:
+        def __init__(self, run_id):
+            self.run_id = run_id
+
+    class Multi:
+        def __init__(self, experiments):
+            self.seen = list(experiments)
+    calls = {}
+
+    def split(data, rows, row_units):
+        calls['split'] = (data, rows, row_units)
+        return 'PIXWRAP'
+    saved = (mod.SqwMultiIXExperiment, mod._split_pix_rows, mod.SqwBuilder._make_pix_metadata)
+    mod.SqwMultiIXExperiment, mod._split_pix_rows = Multi, split
+    mod.SqwBuilder._make_pix_metadata = lambda self, pw: ('PIXMETA', pw)
+    try:
+        for ids in ((0,), (0, 1, 2), (7, 2, 5), (3, 3, 1, 0), tuple(range(19, -1, -1))):
+            b = mod.SqwBuilder(M.MemFile(), 'title', byteorder=mod.Byteorder.little)
+            exps = [E(i) for i in ids]
+            given = list(exps)
+            out = b.add_pixel_data('DATA', experiments=exps, rows=('r',), row_units=('u',))
+            blk = b._data_blocks.get(('experiment_info', 'expdata'))
+            tag = ','.join(map(str, ids)) if len(ids) < 6 else f'{len(ids)} descending'
+            chk.decided(f'{pre}/experiment block holds the supplied experiments in the supplied order[run ids {tag}]',
+                        isinstance(blk, Multi) and len(blk.seen) == len(given) and all(a is g for a, g in zip(blk.seen, given)),
+                        detail=str([e.run_id for e in getattr(blk, 'seen', [])]), meta={'run_ids': list(ids)})
+            chk.decided(f'{pre}/the caller\'s list of experiments is left as it was[run ids {tag}]', len(exps) == len(given) and all(a is g for a, g in zip(exps, given)))
+            chk.decided(f'{pre}/nfiles==number of experiments[run ids {tag}]', b._data_blocks[('', 'main_header')].nfiles == len(ids))
+        chk.decided(f'{pre}/pixel wrapper is _split_pix_rows(data, rows, row_units)', calls.get('split') == ('DATA', ('r',), ('u',)) and b._pix_wrap == 'PIXWRAP', detail=str(calls))
+        chk.decided(f'{pre}/pixel metadata made from that wrapper', b._data_blocks.get(('pix', 'metadata')) == ('PIXMETA', 'PIXWRAP'))
+        chk.decided(f'{pre}/returns the builder', out is b)
+    finally:
+        mod.SqwMultiIXExperiment, mod._split_pix_rows, mod.SqwBuilder._make_pix_metadata = saved
 
 
 def unique_refs(chk, mod):
